@@ -48,7 +48,7 @@ Definition ws_check (pinned progs script cfok trace rets : bytes) : bytes :=
       match accepts_anon_d wshared wlocal wevent (wstep pd) wevent_eqb wconfig_eqb 200 [c0] tr with
       | [] => str "bad:trace-rejected"
       | finals =>
-          if existsb (fun c => all_done wshared wlocal wdone c
+          if existsb (fun c => forallb wdone (firstn n (thr c))
                                && bytes_eqb (sep_concat (str "/") (map (fun l => match wl_rets l with [] => str "-" | x => show_nrets x end) (firstn n (thr c)))) rets
                                && negb (w_panic (glob c))) finals
           then str "ok" else str "bad:results"
@@ -103,7 +103,9 @@ Definition wsc_check (pinned progs plan readers trace rets : bytes) : bytes :=
       match accepts_anon_d xshared xlocal xevent (xstep pd n) xevent_eqb xconfig_eqb 200 [c0] tr with
       | [] => str "bad:trace-rejected"
       | finals =>
-          if existsb (fun c => all_done xshared xlocal xdone c
+          (* the calls of the workers have all returned with these results (background readers
+             of sessions that are still open may legitimately still be listening) *)
+          if existsb (fun c => forallb xdone (firstn n (thr c))
                                && bytes_eqb (sep_concat (str "/") (map (fun l => match x_rets l with [] => str "-" | x => show_nrets x end) (firstn n (thr c)))) rets
                                && negb (xg_panic (glob c))) finals
           then str "ok" else str "bad:results"
